@@ -9,6 +9,32 @@ from classy_blocks.util.constants import SIDES_MAP
 from classy_blocks.util.frame import Frame
 
 
+class OrderedSet(set):
+    """A set that iterates in insertion order. Plain sets of objects iterate in the order of
+    their memory addresses, which differs from run to run - anything that depends
+    on that order (like which neighbour a grading is copied from) must use this instead."""
+
+    def __init__(self, iterable=()):
+        super().__init__()
+        self._order: list = []
+
+        for item in iterable:
+            self.add(item)
+
+    def add(self, item) -> None:
+        if item not in self:
+            super().add(item)
+            self._order.append(item)
+
+    def discard(self, item) -> None:
+        if item in self:
+            super().discard(item)
+            self._order.remove(item)
+
+    def __iter__(self):
+        return iter(self._order)
+
+
 def report(text, end=None):
     """TODO: improve (verbosity, logging, ...)"""
     if end is None:
